@@ -52,8 +52,8 @@ ANCHORS = ["glue.core.state:VersionedDict.__setitem__", "glue.core.state:Version
            "glue.core.state:_save_data_collection", "glue.core.state:_save_data_collection_4"]
 
 BLOCK = 6
-N_ROUNDS = {"quick": 14, "thorough": 160}       # blocks per (dv, cv) pair
-N_NEWEST = {"quick": 12, "thorough": 80}
+N_ROUNDS = {"quick": 30, "thorough": 160}       # blocks per (dv, cv) pair
+N_NEWEST = {"quick": 30, "thorough": 80}
 PAIRS = [(dv, cv) for dv in (1, 2, 3, 4, 5) for cv in (1, 2, 3, 4)]
 
 
